@@ -67,6 +67,7 @@ type runtime struct {
 	traceLimit   int
 	lck          sync.Mutex
 	halting      bool // an interrupt function panicked; script try/catch must not intercept it
+	evalDepth    int  // direct evals in progress, they count towards stackLimit
 }
 
 func (rt *runtime) enterScope(scop *scope) {
